@@ -19,6 +19,7 @@ import (
 	"strconv"
 	"strings"
 	"sync"
+	"syscall"
 	"testing"
 	"time"
 
@@ -263,7 +264,9 @@ func (r *Recorder) Flush() {
 func Main(m *testing.M) {
 	loadKnown()
 	code := m.Run()
-	Rec.Flush()
+	if !FuzzWorker() { // the workers of a native fuzz leg share leg and shard: only the coordinator writes evidence
+		Rec.Flush()
+	}
 	os.Exit(code)
 }
 
@@ -605,7 +608,46 @@ var (
 )
 
 func curCasePath() string {
+	if FuzzWorker() || strings.HasPrefix(E.Leg, "fuzz") {
+		// native fuzzing runs several worker processes per leg: one file per process
+		return filepath.Join(E.OutDir, fmt.Sprintf("%s.pid%d.current.json", E.Leg, os.Getpid()))
+	}
 	return filepath.Join(E.OutDir, fmt.Sprintf("%s.%d.current.json", E.Leg, E.Shard))
+}
+
+// FuzzWorker reports whether this process is a worker of Go's native fuzzing engine (the coordinator re-executes
+// the test binary with -test.fuzzworker).
+func FuzzWorker() bool { return isFuzzWorker }
+
+var isFuzzWorker = func() bool {
+	for _, a := range os.Args[1:] {
+		if strings.HasPrefix(a, "-test.fuzzworker") {
+			return true
+		}
+	}
+	return false
+}()
+
+// LimitFuzzWorker caps the address space of a native-fuzzing WORKER process (the coordinator, which holds the shared
+// memory of all workers, runs without the ulimit the driver puts on the rapid shards). A worker that hits the cap dies
+// with its current case persisted; the driver replays it alone.
+func LimitFuzzWorker(bytes uint64) {
+	if !FuzzWorker() {
+		return
+	}
+	_ = syscall.Setrlimit(syscall.RLIMIT_AS, &syscall.Rlimit{Cur: bytes, Max: bytes})
+}
+
+// FuzzReport handles an oracle verdict inside a native fuzz target: the failing case is written as a violation
+// replay file (the driver replays these files after the leg to confirm and key them) and the input is failed, so
+// that the engine keeps it and minimises it.
+func FuzzReport(t *testing.T, kind string, c interface{}, f *Fail) {
+	if f == nil || Known(f.Key) {
+		return
+	}
+	raw, _ := json.Marshal(c)
+	WriteViolation(&ReplayFile{Property: E.Property, Kind: kind, Key: f.Key, Msg: f.Msg, Case: raw})
+	t.Fatalf("%s: %s", f.Key, f.Msg)
 }
 
 // SetCurrentCase persists the case about to run, so that the driver can re-run it alone if this
@@ -672,12 +714,17 @@ func StartWatch(budget time.Duration) {
 					buf := make([]byte, 1<<16)
 					n := runtime.Stack(buf, true)
 					os.Stdout.Write(buf[:n])
-					Rec.Flush()
+					if !FuzzWorker() {
+						Rec.Flush()
+					}
 					os.Exit(3)
 				}
 			}
 		}()
 	})
+	if isFuzzWorker {
+		budget *= 6 // sixteen instrumented workers next to whatever else runs: only a real hang should end a worker
+	}
 	curMu.Lock()
 	curOn, curStart, curBudg = true, time.Now(), budget
 	curMu.Unlock()
